@@ -358,7 +358,8 @@ class uint16(int, FieldType):
         if value < 0 or value > 0xFFFF:
             raise ValueError("Value not within (0x0, 0xffff), got: {}".format(value))
 
-        self.value = value
+        # the integer this object is (a float is converted like int() does), not the raw argument
+        self.value = int(self)
 
     def _pack(self):
         return self.value
@@ -374,7 +375,7 @@ class uint32(int, FieldType):
         if value < 0 or value > 0xFFFFFFFF:
             raise ValueError("Value not within (0x0, 0xffffffff), got {}".format(value))
 
-        self.value = value
+        self.value = int(self)
 
     def _pack(self):
         return self.value
@@ -384,7 +385,7 @@ class boolean(int, FieldType):
     value = None
 
     def __init__(self, value):
-        if value < 0 or value > 1:
+        if value not in (0, 1):
             raise ValueError("Value not a valid boolean value")
 
         self.value = bool(value)
